@@ -227,4 +227,5 @@ def run(ctx):
         ctx.sample({"operator": f"{c['system']}/{c['pmaxsat']}", "budget": c["budget"], "weakly": c["weakly"],
                     "base": [core.cond_text((b, a), names) for _, b, a in c["base"]], "observations": cnt,
                     "one_faulted_run": runs[0] if runs else None})
-        ctx.failures.extend(compare(c, impl))
+        for f in compare(c, impl):
+            ctx.fail(f, lambda f: core.generic_shrink(f, recheck, fields=("base", "queries"), budget=30))
